@@ -27,7 +27,7 @@ CONSTANT_PREFIXES = ['a5.core.hilbert:PATTERN', 'a5.core.origin:origins', 'a5.co
 
 def plan(tier, seed):
     if tier == 'quick':
-        return [{'histories': 3, 'calls': 60, 'fresh_per_history': 32} for _ in range(16)]
+        return [{'histories': 3, 'calls': 60, 'fresh_per_history': 36} for _ in range(16)]
     return [{'histories': 50, 'calls': 120, 'fresh_per_history': 125} for _ in range(16)]
 
 
@@ -50,8 +50,19 @@ def gen_call(rnd, a5, gen):
         p, r = gen.point(rnd, a5, kind)
     p = (float(p[0]), float(p[1]))
     if k == 'lonlat_to_cell':
-        return ('lonlat_to_cell', [list(p), r])
+        return ('lonlat_to_cell', [list(p), r if rnd.random() > 0.02 else -1])
     c = a5.lonlat_to_cell(p, r)
+    if rnd.random() < 0.04:
+        # the world cell is a valid argument of every hierarchy / geometry function
+        c, r = 0, -1
+        if k == 'cell_to_parent':
+            return (k, [c, -1])
+        if k == 'compact':
+            return (k, [[0] + ([a5.cell_to_children(0, 0)[rnd.randrange(12)]] if rnd.random() < 0.5 else [])])
+        if k == 'uncompact':
+            return (k, [[0], rnd.randint(0, 2)])
+        if k == 'cell_to_children':
+            return (k, [0, rnd.randint(-1, 2)])
     if k == 'cell_to_lonlat':
         return (k, [c])
     if k == 'cell_to_boundary':
@@ -59,7 +70,7 @@ def gen_call(rnd, a5, gen):
     if k == 'cell_to_boundary_opts':
         o = {}
         if rnd.random() < 0.8:
-            o['segments'] = rnd.choice([1, 2, 3, 'auto', None])
+            o['segments'] = rnd.choice([1, 2, 3, 'auto', None, 1, 2, 3, 'auto', None, 0, -1])
         if rnd.random() < 0.6:
             o['closed_ring'] = rnd.choice([True, False])
         return ('cell_to_boundary', [c, o])
@@ -123,13 +134,47 @@ def run_history(a5, gen, state, fresh_mod, rew, spec, ctx, repo, pyc):
             # two or three lookups that straddle one frame point (face edge midpoint / vertex / centre), executed back to back:
             # consecutive lookups on both sides of a face boundary are where 'remember the previous answer' shortcuts go wrong
             i = rnd.randrange(62)
-            r = rnd.choice((0, 1, rnd.randint(20, 29), rnd.randint(20, 29), rnd.randint(2, 19)))
+            r = rnd.choice((0, 1, 29, 29, 28, rnd.randint(20, 29), rnd.randint(20, 29), rnd.randint(2, 19)))
             g = []
+            lo_, hi_ = rnd.choice(((-12, -4), (-12, -9), (-9, -4)))
             for _ in range(rnd.choice((2, 3))):
-                p = gen.p_frame(rnd, i, -9, -4)
+                p = gen.p_frame(rnd, i, lo_, hi_)
                 g.append(('lonlat_to_cell', [[float(p[0]), float(p[1])], r]))
             groups.append(g)
             ctx.count('straddling_lookup_groups')
+        elif rnd.random() < 0.12:
+            # a family: a structured deep cell (first / last positions of a segment, digit patterns), its ancestors at coarse
+            # levels and a sibling, with geometry calls on each, executed back to back in a random order
+            rr = rnd.choice((29, 29, 28, rnd.randint(6, 29)))
+            face, seg = rnd.randrange(12), rnd.randrange(5)
+            digs = gen.digits_pattern(rnd, rr - 1, rnd.choice(('zero', 'three', '0333', '1000', 'single', 'random')))
+            if rnd.random() < 0.5:
+                digs[-1] = rnd.randrange(4)
+            deep = gen.cell_by_path(a5, face, seg, digs)
+            fam = [deep] + [a5.cell_to_parent(deep, q) for q in sorted({1, 2, 2, rnd.randint(2, 5)})]
+            fam.append(a5.cell_to_children(a5.cell_to_parent(deep))[rnd.randrange(4)])
+            g = []
+            for cfam in fam:
+                fn = rnd.choice(('cell_to_lonlat', 'cell_to_boundary', 'cell_to_boundary'))
+                g.append((fn, [cfam] if fn == 'cell_to_lonlat' or rnd.random() < 0.3 else [cfam, {'segments': rnd.choice((1, 1, 2, 'auto'))}]))
+            rnd.shuffle(g)
+            if rnd.random() < 0.5:
+                g.append(g[0])
+            groups.append(g)
+            ctx.count('family_groups')
+        elif rnd.random() < 0.06:
+            # coarse cells: every option combination on a resolution-0 / resolution-1 cell and on a second cell of another face
+            lowc = rnd.choice(a5.cell_to_children(0, rnd.choice((0, 1, 1))))
+            low2 = rnd.choice(a5.cell_to_children(0, a5.get_resolution(lowc)))
+            g = []
+            for cl in (lowc, low2, lowc):
+                o = {'segments': rnd.choice((1, 1, 2, 3))}
+                if rnd.random() < 0.5:
+                    o['closed_ring'] = rnd.choice((True, False))
+                g.append(('cell_to_boundary', [cl, o]))
+                g.append(('cell_to_lonlat', [cl]))
+            groups.append(g)
+            ctx.count('coarse_groups')
         else:
             groups.append([gen_call(rnd, a5, gen)])
     if mode == 'cold':
@@ -161,7 +206,7 @@ def run_history(a5, gen, state, fresh_mod, rew, spec, ctx, repo, pyc):
     # fresh-interpreter oracle for a subset of distinct calls, one interpreter per call
     distinct = list({repr(c): c for c in calls}.values())
     rnd.shuffle(distinct)
-    distinct.sort(key=lambda c: 0 if (c[0] == 'lonlat_to_cell' and any(c in g for g in groups if len(g) > 1)) else 1)
+    distinct.sort(key=lambda c: 0 if any(c in g for g in groups if len(g) > 1) else 1)
     for c in distinct[:spec['fresh_per_history']]:
         try:
             fr = fresh_mod.run_calls([list(c)], repo, pyc)[0]
